@@ -5,7 +5,8 @@ LEVEL = 'exploration'
 SHARDS = {'quick': 2, 'thorough': 16}
 BUDGET = {'quick': 60, 'thorough': 600}
 TECHNIQUE = 'runtime monitoring at the client boundary: the object built by sigtools vs. the hand-written composition, called on every call shape with distinguishable values; reported signatures executed'
-RULE = ('seeded stacks of depth 1..3 of generated wrapping functions (own parameters positional or keyword-only, names disjoint '
+RULE = ('(also: wrapper_decorator(use_varargs=False) / (use_varkwargs=False) around wrapping functions that hand on only one of their star parameters, where that declaration can be honoured) '
+        'seeded stacks of depth 1..3 of generated wrapping functions (own parameters positional or keyword-only, names disjoint '
         'from the decorated function, wrapper_decorator with and without a masked leading positional) over decorated functions '
         'of U({x,y,z},2) placed as function, method (first parameter named self or this; another instance touched first, instances comparing equal in half of the cases) and staticmethod, plain or dressed (modifiers.annotate, a stored __signature__, a modifiers wrapper object); Combination of 1..3 '
         'generated functions (flat and nested). Each object is called on every call shape and compared with the composition '
